@@ -188,7 +188,20 @@ def family_c07(sig, api, rnd, n_per_type, nfacts, max_stop):
     fam2 = [pre + facts + more + [dict(fin)]]
     for j in range(max_stop + 1):
         fam2.append(pre + facts + [{"op": "close_until", "stop": j}] + more + [dict(fin)])
-    return members, fam2
+    # an equality asserted between the early stop and the resumption, for every type with two handles and in
+    # both argument orders (which class survives depends on it): requests that are pending across the stop
+    # refer to elements that are merged before they are carried out
+    extra = []
+    if not sig.models:
+        for t in sig.types:
+            if nh.get(t, 0) >= 2 and t in api["new"]:
+                a, b = rnd.sample(range(nh[t]), 2)
+                fam3 = [pre + facts + [{"op": "equate", "ty": t, "a": a, "b": b}] + [dict(fin)]]
+                for j in (1, 2):
+                    for x, y in ((a, b), (b, a)):
+                        fam3.append(pre + facts + [{"op": "close_until", "stop": j}, {"op": "equate", "ty": t, "a": x, "b": y}] + [dict(fin)])
+                extra.append(fam3)
+    return members, fam2, extra
 
 
 def exhaustive_bodies(theory, sig, api, pre_n, max_ops, max_asserts, max_stop, max_handles, name, with_define=True, with_equate=True):
